@@ -12,6 +12,7 @@ mod props;
 mod util;
 mod tc;
 mod gensrc;
+mod layout;
 mod alloc;
 
 #[global_allocator]
